@@ -19,7 +19,7 @@ for e in kf["findings"]:
     pid, commit = e["property"], e["commit"]
     if not os.path.exists(os.path.join(VERIF, "harness", "props", pid.lower() + ".py")):
         continue
-    sh(f"git -C {WT} checkout -q -- . && git -C {WT} clean -fdq && git -C {WT} checkout -q --detach main")
+    sh(f"git -C {WT} revert --abort; git -C {WT} reset -q --hard main && git -C {WT} clean -fdq && git -C {WT} checkout -q --detach main")
     rc, out = sh(f"git -C {WT} revert --no-commit {commit}")
     if rc != 0:
         sh(f"git -C {WT} revert --abort; git -C {WT} checkout -q -- .")
